@@ -184,10 +184,14 @@ PROPS["C02"] = dict(
 PROPS["C04"] = dict(
     level="proof",
     lean_module="RefmtProofs.Props.C04",
-    theorems=[],
+    theorems=["Refmt.C04.refine", "Refmt.C04.half_exact", "Refmt.C04.negint_exact", "Refmt.C04.parse_consumes", "Refmt.C04.prefix_free"],
     streams=[dict(name="cbordec", gen="cbordec", rule="cbordec")],
     title="CBOR decoder accepts exactly well-formed CBOR",
-    claim="(work in progress)",
+    claim="Theorems (every byte string, both option settings): the decoder machine model yields exactly the tokens of the item the "
+          "RFC 7049 reference decoder (Spec.Cbor.parse) reads, done on the last token, leaving exactly its rest, and errors whenever the "
+          "reference rejects; every proper prefix of an accepted item is rejected; half-float widening is exact on all 65536 patterns "
+          "(kernel-evaluated table); decoded negative integers are exactly -1-n. Tie: exhaustive-small, grammar-generated, truncated "
+          "and mutated byte strings through the real decoder vs machine model vs reference decoder.",
     rule_text="byte strings for the CBOR decoder: all strings of <= 2 bytes, all 3-symbol (thorough: 4-symbol, and all 3-byte) strings over the "
               "structurally significant alphabet, all 65536 half floats, sampled singles, every head boundary in every width, "
               "grammar-generated items in random legal spellings with trailing bytes, every proper prefix, single-edit mutants, adversarial "
